@@ -181,7 +181,8 @@ where
                 // it's not => check capicity
                 if size < self.k {
                     // space left => add to top k
-                    debug_assert!(count == 1);
+                    // collisions in the sketch may inflate the estimate of a first-seen element
+                    debug_assert!(count >= 1);
                     v.insert(1);
                     self.tree.insert(TreeEntry {
                         obj: Rc::clone(&rc),
